@@ -369,7 +369,16 @@ pub fn observe(ont: &Ontology) -> Expected {
 pub fn observe_diff(a: &Expected, b: &Expected) -> Vec<String> {
     let mut d = vec![];
     if a.terms != b.terms {
-        d.push(format!("terms differ: {:?} vs {:?}", a.terms, b.terms));
+        let ka: Vec<&u32> = a.terms.keys().collect();
+        let kb: Vec<&u32> = b.terms.keys().collect();
+        if ka != kb {
+            d.push(format!("term ids differ: {:?} vs {:?}", ka, kb));
+        }
+        // the first differing term, in full (the whole maps can be hundreds of terms)
+        if let Some((id, ta)) = a.terms.iter().find(|(id, ta)| b.terms.get(*id).map_or(false, |tb| tb != *ta)) {
+            let n = a.terms.iter().filter(|(id, ta)| b.terms.get(*id).map_or(true, |tb| tb != *ta)).count();
+            d.push(format!("{n} terms differ, the first is term {id}: {:?} vs {:?}", ta, b.terms[id]));
+        }
     }
     for k in 0..3 {
         let x: Vec<(u32, String, Vec<u32>)> = a.recs[k].iter().map(|(i, r)| (*i, r.name.clone(), r.hpos.iter().copied().collect())).collect();
